@@ -37,16 +37,35 @@ var dbg = os.Getenv("VH_DEBUG") != ""
 
 const day = 24 * time.Hour
 
-type progT struct{ path, ver, gover string }
+// goos / goarch: "" = the platform the harness runs on; otherwise the library-written
+// file's metadata header is rewritten (same length) after the file is closed
+type progT struct{ path, ver, gover, goos, goarch string }
+
+// the replacement platform strings have the lengths of linux / amd64
+const altGOOS, altGOARCH = "plan9", "arm64"
 
 var progs = []progT{
-	{"example.com/tools/alpha", "v1.2.0", "go1.22.1"},
-	{"example.com/tools/beta", "v0.3.1", "go1.22.1"},
-	{"example.com/tools/alpha", "v1.3.0", "go1.23.0"},
-	{"example.com/gamma", "v2.0.0", "go1.23.0"},
+	{path: "example.com/tools/alpha", ver: "v1.2.0", gover: "go1.22.1"},
+	{path: "example.com/tools/beta", ver: "v0.3.1", gover: "go1.22.1"},
+	{path: "example.com/tools/alpha", ver: "v1.3.0", gover: "go1.23.0"},
+	{path: "example.com/gamma", ver: "v2.0.0", gover: "go1.23.0"},
 }
 
 var ctrNames = []string{"c0", "c1", "c2", "c3"}
+
+// stack counters (a name with a newline; the part before it is the name the
+// upload config approves): ids stackBase+i
+var stackNames = []string{"s0\nmain.f\nmain.g", "s1\nmain.h"}
+
+const stackBase = 100
+const badKind = 777777 // a counter in Stacks or a stack in Counters
+
+func ctrName(id int64) string {
+	if id >= stackBase {
+		return stackNames[id-stackBase]
+	}
+	return ctrNames[id]
+}
 
 type world struct {
 	dir, local, up string
@@ -77,6 +96,11 @@ func ctrID(name string) int64 {
 	for i, n := range ctrNames {
 		if n == name {
 			return int64(i)
+		}
+	}
+	for i, n := range stackNames {
+		if n == name {
+			return int64(stackBase + i)
 		}
 	}
 	return 999999
@@ -136,10 +160,18 @@ func (w *world) describe(data []byte) string {
 		}
 		var cs [][2]int64
 		for k, v := range p.Counters {
-			cs = append(cs, [2]int64{ctrID(k), v})
+			id := ctrID(k)
+			if id >= stackBase && id != 999999 {
+				id = badKind
+			}
+			cs = append(cs, [2]int64{id, v})
 		}
-		for range p.Stacks {
-			cs = append(cs, [2]int64{888888, 0})
+		for k, v := range p.Stacks {
+			id := ctrID(k)
+			if id < stackBase {
+				id = badKind
+			}
+			cs = append(cs, [2]int64{id, v})
 		}
 		sort.Slice(cs, func(i, j int) bool { return cs[i][0] < cs[j][0] })
 		ps = append(ps, pr{id, cs})
@@ -202,11 +234,52 @@ func (w *world) makeCount(p progT, now time.Time, ctrs [][2]int64) string {
 	f.SetBuildInfo(&debug.BuildInfo{GoVersion: p.gover, Path: p.path, Main: debug.Module{Path: p.path, Version: p.ver}})
 	f.Rotate1()
 	for _, c := range ctrs {
-		f.NewCounter(ctrNames[c[0]]).Add(c[1])
+		f.NewCounter(ctrName(c[0])).Add(c[1])
 	}
 	name := f.CurrentName()
 	f.Close()
+	if (p.goos != "" || p.goarch != "") && name != "" && runtime.GOOS == "linux" && runtime.GOARCH == "amd64" {
+		// another platform's file: same bytes except the GOOS / GOARCH values of the metadata header
+		data, err := os.ReadFile(name)
+		if err != nil {
+			panic(err)
+		}
+		newName := name
+		if p.goos != "" {
+			data = []byte(strings.Replace(string(data), "\nGOOS: linux\n", "\nGOOS: "+p.goos+"\n", 1))
+			newName = strings.Replace(newName, "-linux-", "-"+p.goos+"-", 1)
+		}
+		if p.goarch != "" {
+			data = []byte(strings.Replace(string(data), "\nGOARCH: amd64\n", "\nGOARCH: "+p.goarch+"\n", 1))
+			newName = strings.Replace(newName, "-amd64-", "-"+p.goarch+"-", 1)
+		}
+		os.Remove(name)
+		if err := os.WriteFile(newName, data, 0666); err != nil {
+			panic(err)
+		}
+		name = newName
+	}
 	return name
+}
+
+// variant: p with exactly one of the five identity fields changed
+func variant(p progT, field int) progT {
+	switch field {
+	case 0:
+		p.path += "x"
+	case 5:
+		// another program with the same last path element: the count files' names differ in the date only
+		p.path = strings.Replace(p.path, "example.com/", "example.com/fork/", 1)
+	case 1:
+		p.ver += "1"
+	case 2:
+		p.gover += "1"
+	case 3:
+		p.goos = altGOOS
+	default:
+		p.goarch = altGOARCH
+	}
+	return p
 }
 
 // span as date.go's counterDateSpan extracts it
@@ -248,12 +321,16 @@ type scen struct {
 
 var sweeps []scen
 var scenIdx int
+var faultN int
 
 // rel strips the (random) root of the temporary tree from a path or label,
 // so that the case lines depend on the seed only.
 func rel(s string) string { return strings.ReplaceAll(s, root+string(filepath.Separator), "") }
 
 func buildSweeps() {
+	if tag == "c05" {
+		return // the fault suite has its own systematic part (faultCases): single faults and pairs
+	}
 	if tag == "c08" {
 		for k := 1; k <= 26; k++ {
 			for _, st := range []int{200, 404, 503, 0} {
@@ -287,6 +364,9 @@ func pickScen() scen {
 }
 
 func pickScen1() scen {
+	if tag == "c05" {
+		return scen{kind: "fault", nthreads: 1, policy: "seq", outcomes: "all200"}
+	}
 	if tag == "c07" && rnd.Chance(4) {
 		return scen{kind: "race3", nthreads: 3, policy: "directed", outcomes: "all200", directed: "race3"}
 	}
@@ -415,6 +495,10 @@ func scenario() {
 	if tag == "c08" {
 		modeOn = rnd.Chance(95)
 	}
+	if tag == "c05" {
+		// the exported upload.Run is exercised in mode local only (no config download there)
+		modeOn = rnd.Chance(55) || datedDir
+	}
 	forced := sc.directed != "" || sc.small
 	if forced {
 		modeOn = true
@@ -437,6 +521,7 @@ func scenario() {
 	pstart := rnd.Intn(len(progs))
 	used := map[string]bool{}
 	var goVersions, progNames []string
+	var platforms [][2]string
 	for wk := 0; wk < nWeeks; wk++ {
 		for pi := 0; pi < nProgs; pi++ {
 			if !forced && !rnd.Chance(80) {
@@ -457,6 +542,7 @@ func scenario() {
 					continue
 				}
 				used[key] = true
+				used["file:"+filepath.Base(p.path)+p.ver+p.gover+p.goos+p.goarch+now.Format("2006-01-02")] = true
 				var ctrs [][2]int64
 				if forced {
 					ctrs = [][2]int64{{int64(pi), int64(1 + rnd.Intn(5))}, {3, int64(1 + rnd.Intn(5))}}
@@ -471,6 +557,58 @@ func scenario() {
 			}
 		}
 	}
+	// identity groups (C07): in one week, 2-4 files whose program identities differ in
+	// exactly one of the five fields from a base identity, or are equal to it (to be
+	// summed); distinct values, counters and stack counters
+	if !forced && tag == "c07" && rnd.Chance(55) {
+		out.Note("ident-group")
+		bp := progs[rnd.Intn(len(progs))]
+		now0 := base.Add(time.Duration(rnd.Intn(nWeeks*7))*day + time.Duration(rnd.Intn(86400))*time.Second)
+		counter.CounterTime = func() time.Time { return now0 }
+		probe := counter.VerifNewFile()
+		probe.SetBuildInfo(&debug.BuildInfo{GoVersion: "go0.0.0", Path: "example.com/probe", Main: debug.Module{Path: "example.com/probe", Version: "v0.0.0"}})
+		probe.Rotate1()
+		_, end0 := probe.Span()
+		pn := probe.CurrentName()
+		probe.Close()
+		os.Remove(pn)
+		nf := 2 + rnd.Intn(3)
+		for j := 0; j < nf; j++ {
+			p := bp
+			if j > 0 && !rnd.Chance(30) {
+				fld := rnd.Intn(6)
+				p = variant(bp, fld)
+				out.Note("ident-differs-" + []string{"Program", "Version", "GoVersion", "GOOS", "GOARCH", "Program-same-base"}[fld])
+			} else if j > 0 {
+				out.Note("ident-same")
+			}
+			// a begin date in the seven days before the common end: same report week
+			now := end0.Add(-time.Duration(1+rnd.Intn(7))*day + time.Duration(rnd.Intn(80000))*time.Second)
+			// the file name holds path.Base(program), version, toolchain, platform and the begin date
+			key := "file:" + filepath.Base(p.path) + p.ver + p.gover + p.goos + p.goarch + now.Format("2006-01-02")
+			if used[key] || used[p.path+p.ver+now.Format("2006-01-02")] {
+				continue
+			}
+			used[key] = true
+			used[p.path+p.ver+now.Format("2006-01-02")] = true
+			var ctrs [][2]int64
+			for ci := range ctrNames {
+				if rnd.Chance(60) {
+					ctrs = append(ctrs, [2]int64{int64(ci), int64(10*(j+1) + rnd.Intn(5))})
+				}
+			}
+			for si := range stackNames {
+				if rnd.Chance(50) {
+					ctrs = append(ctrs, [2]int64{int64(stackBase + si), int64(100*(j+1) + rnd.Intn(5))})
+				}
+			}
+			if len(ctrs) == 0 {
+				ctrs = [][2]int64{{0, int64(10*(j+1) + 7)}}
+			}
+			w.makeCount(p, now, ctrs)
+		}
+	}
+
 	// malformed count files
 	if !forced && rnd.Chance(30) {
 		var donor []byte
@@ -538,6 +676,7 @@ func scenario() {
 				weeks[wk] = true
 				w.weekOfCount[e.Name()] = wk
 				goVersions = append(goVersions, pf.Meta["GoVersion"])
+				platforms = append(platforms, [2]string{pf.Meta["GOOS"], pf.Meta["GOARCH"]})
 				progNames = append(progNames, pf.Meta["Program"]+"\x00"+pf.Meta["Version"])
 			}
 		}
@@ -598,7 +737,11 @@ func scenario() {
 		out.Note("pre-stray-ready")
 	}
 	staleLock := ""
-	if rnd.Chance(5) && !sc.eventual && !forced {
+	lockChance := 5
+	if tag == "c05" {
+		lockChance = 20
+	}
+	if rnd.Chance(lockChance) && !sc.eventual && !forced {
 		staleLock = wkR()
 		os.MkdirAll(w.up, 0777)
 		os.WriteFile(filepath.Join(w.up, staleLock+".json.lock"), nil, 0666)
@@ -692,9 +835,31 @@ func scenario() {
 			cfg.GoVersion = append(cfg.GoVersion, g)
 		}
 	}
+	for _, pl := range platforms {
+		hasOS, hasArch := false, false
+		for _, g := range cfg.GOOS {
+			hasOS = hasOS || g == pl[0]
+		}
+		for _, g := range cfg.GOARCH {
+			hasArch = hasArch || g == pl[1]
+		}
+		if !hasOS {
+			cfg.GOOS = append(cfg.GOOS, pl[0])
+		}
+		if !hasArch {
+			cfg.GOARCH = append(cfg.GOARCH, pl[1])
+		}
+	}
 	for ci := range ctrNames {
 		if rnd.Chance(70) {
 			allowed = append(allowed, int64(ci))
+		}
+	}
+	if tag == "c07" {
+		for si := range stackNames {
+			if rnd.Chance(70) {
+				allowed = append(allowed, int64(stackBase+si))
+			}
 		}
 	}
 	pcs := map[string]*telemetry.ProgramConfig{}
@@ -704,7 +869,12 @@ func scenario() {
 		if pc == nil {
 			pc = &telemetry.ProgramConfig{Name: name}
 			for _, a := range allowed {
-				pc.Counters = append(pc.Counters, telemetry.CounterConfig{Name: ctrNames[a], Rate: 1})
+				if a >= stackBase {
+					before, _, _ := strings.Cut(stackNames[a-stackBase], "\n")
+					pc.Stacks = append(pc.Stacks, telemetry.CounterConfig{Name: before, Rate: 1, Depth: 8})
+				} else {
+					pc.Counters = append(pc.Counters, telemetry.CounterConfig{Name: ctrNames[a], Rate: 1})
+				}
 			}
 			pcs[name] = pc
 			cfg.Programs = append(cfg.Programs, pc)
@@ -757,6 +927,19 @@ func scenario() {
 				initUp = append(initUp, HS(e.Name())+" raw "+I(int64(w.blob(data))))
 			}
 		}
+	}
+	if tag == "c05" {
+		head := []string{HS(rel(w.local + string(filepath.Separator))), I(int64(len(allowed)))}
+		for _, a := range allowed {
+			head = append(head, I(a))
+		}
+		head = append(head, I(int64(len(init0))))
+		head = append(head, init0...)
+		head = append(head, B(upPresent), I(int64(len(initUp))))
+		head = append(head, initUp...)
+		head = append(head, I(starts[0].Unix()), I(int64(starts[0].Nanosecond())), B(modeOn), B(!asof.IsZero()), I(asof.Unix()))
+		faultCases(faultN, w, dir, cfg, starts[0], modeOn, asof, head)
+		return
 	}
 	// ---- threads ----
 	url := "http://verif.invalid/upload"
@@ -1025,6 +1208,14 @@ func main() {
 		panic(err)
 	}
 	defer os.RemoveAll(root)
+	if tag == "c05" {
+		faultN = n
+		for casesDone < n {
+			scenario()
+		}
+		out.Close()
+		return
+	}
 	for i := 0; i < n; i++ {
 		scenario()
 	}
